@@ -64,6 +64,77 @@ signature file *.gs; the original is only read once, to make the copy, and re-ha
            file again: same bytes, new mtime), whether a command on a read-only directory fails.
            Model op 1803 as for `history` (the state is below the model: its genome file is an abstract value).
 
+  sequence (kind `sequence`, streams sequence-fixed / sequence-random) -- STATE AND ALIASING.  The streams above make the
+           objects of a case, use them once (or in one fixed pattern) and drop them.  A sequence case is a script of 2-7
+           calls over a small POOL of long-lived objects that the steps share and that stay alive until the end of the
+           case: ReferenceDatabase objects (load_from_dir / load / CLIContext.get_database(), two of them from one CLI
+           context), session makers (file_sessionmaker default / cls=ReadOnlySession, CLIContext) and up to two sessions of
+           each that stay OPEN, with their pending edits, while other steps run, signature handles (two slots per file),
+           QueryParams objects, lists of query arrays, SignatureArray objects -- used against TWO DIFFERENT data bases in both
+           orders (A: the shared copy; B: made by the harness from it with sqlite3 / h5py: 173 signatures in reversed order,
+           150 genomes, signatures without a genome, other name; same file names, same genome set key), the query signature
+           file Q, a private data base W on whose files (same paths) a WRITING tool works between the read-side uses
+           (file_sessionmaker(readonly=False) / cls=Session with add + commit, possibly keeping its session; load_signatures(
+           mode='r+') with an attribute write), and malformed inputs in between (truncated / non-HDF5 / empty / missing
+           signature file, data base directory with a truncated genome or signature file, no files, two genome files; query
+           batches with a failing iterator, a float64 / 2-D / str element in the middle, no element, inputs of the wrong
+           length; an exception injected at the n-th SQL statement of a query or of a session operation).  Steps: query |
+           dist (jaccarddist_matrix on db.signatures / db.sig_indices) | qfail | sess | store | cli (an in-process command, also
+           in a second thread) | edit (ORM object of the data base object edited in memory, flush, commit) | close | contrast
+           | badopen | badload; a step is new, or an earlier step AGAIN, or an earlier step against the OTHER data base.
+           JUDGED after EVERY step: (1) the C18 predicate on every directory of the pool (SHA-256, size, mtime, listing of A,
+           B, Q, and of W since the writing tool last touched it; no write statement on a genome file; every session that
+           began is read-only in behaviour; every signature file opened in mode r; commit() raised TypeError; writes through
+           a handle rejected; no journal); (2) CALLER OBJECTS UNMODIFIED: every ReferenceDatabase in the pool has the same
+           genomes (identity keys, object identities), sig_indices, session, signatures object, signature ids / metadata /
+           k-mer spec, nothing pending in its session, and its genomes show the fields the harness read from the genome file
+           with sqlite3; every session maker / CLI context has its class, options, engine; the QueryParams object, the query
+           arrays and the list holding them are byte-identical; (3) SAME CALL, SAME RESULT: the digest of the result (taxa,
+           matches, float32 bit patterns of the distances, csv text) equals that of the same call on freshly loaded objects
+           (a data base loaded for that call alone, arguments made for it alone), which must succeed; every long-lived
+           session / handle, all its steps taken together, agrees with the session / store machine (ops 1801 / 1802).
+           A violation is re-run in a FRESH process before it is reported (the state looked for lives in the process): alone,
+           and if it does not fail alone, with the scripts that ran before it in front (case key `prior`).
+
+           entry point                               object that can outlive one call                a    b    c    d    e
+           file_sessionmaker(path, ro, cls, **kw)    sessionmaker (class_, kw, Engine)               seq  seq  seq  seq  no(1)
+                                                     kw: a fresh dict per call (**), no alias          -    -    -    -    -
+                                                     module state of gambit.db.sqla (none today)     seq: writable maker for the SAME path first
+           ReadOnlySession (maker(), ctx.Session())  session: new / dirty / deleted, transaction     old+seq old old+seq old+seq no(1)
+                                                        old = one session per case (close and reuse, failing commits); seq = two sessions of one
+                                                        maker, sessions of makers of two data bases, edits pending while other calls run, SQL failure
+                                                        injected inside an operation, then the session is used again
+           load_genomeset, ReferenceDatabase(gset, sigs), .load, .load_from_dir, .locate_files
+                                                     ReferenceDatabase: session, genomeset, genomes (ORM objects), sig_indices,
+                                                     signatures (open handle)                        seq  seq  seq  seq  seq(2)
+                                                     the signatures object GIVEN to __init__         seq (two data base objects of one CLI context share it)
+                                                     module state of gambit.db.refdb (none today)    seq (A then B, B then A; W = same content as A)
+           CLIContext .engine .Session .signatures .get_database()
+                                                     _engine, _Session, _signatures (cached per context), class attributes
+                                                                                                     seq  seq  seq  seq  no(1)
+           load_signatures[_hdf5](path, **kw)        HDF5Signatures: h5py handle, ids (in memory), meta, values / bounds data sets;
+                                                     arrays handed out                               old+seq old seq old+seq no(3)
+                                                        old = one handle per case, reopened after close; in-place modification of what is handed out;
+                                                        seq = two handles on one file at once, handles on A, B, Q at once, malformed file in between
+                                                     module state of gambit.sigs.hdf5 (none today)   seq: r+ open of the SAME path first; failing open first
+           gambit.query.query(db, queries, params, inputs=)
+                                                     db (above); params; queries (list / SignatureArray); inputs
+                                                                                                     seq  seq  seq  seq  seq(2)
+           jaccarddist_matrix(q, db.signatures, ref_indices=db.sig_indices, chunksize=)
+                                                     db.signatures, db.sig_indices, q                seq  seq  seq  seq  seq(2)
+           results exporters (csv / json / archive)  the QueryResults and the ORM objects in it      seq (export between two queries on one data base object)
+           CLI query | dist --use-db | signatures info [-d] | signatures create --db-params | tree
+                                                     a new click context and CLIContext per invocation: only process-wide state
+                                                     (module globals, class attributes, OpenMP thread count, SQLAlchemy / h5py
+                                                     registries) survives                            old+seq old old seq old+seq(4)
+           columns: a = reused across >= 2 calls whose other arguments differ (other data base / size / order / options), both orders;
+           b = caller's object compared with what it was before, after every step; c = a call that fails part-way in between, then the
+           good call again on the same thread and objects; d = same call twice, same result; e = second thread / forked workers.
+           (1) sessions, SQLite connections and engines made in one thread are refused by SQLite in another, not advertised: not generated.
+           (2) the second thread loads the data base itself, queries it and closes it while the first thread keeps its objects (a data base
+           object cannot be handed to another thread: its session holds a SQLite connection).  (3) not advertised by gambit.  (4) old: query /
+           dist / create fork worker processes while the data base is open (every history); seq: a command run in a second thread.
+
 Property predicate (reported as VIOLATION with the history as replay): after every step both files
 have the same SHA-256, size and mtime, the directory has the same entries and mtime, no journal
 appeared, no INSERT/UPDATE/DELETE/CREATE/... reached a cursor, every commit() raised TypeError,
@@ -74,6 +145,7 @@ import gc
 import glob
 import hashlib
 import itertools
+import json
 import os
 import shutil
 import time
@@ -91,7 +163,13 @@ RULE = ('session: (how the session was obtained, autoflush, operation list) -> p
         'signature file: journal mode incl. WAL with or without leftover side files, page size, auto_vacuum, freelist, '
         'VACUUM, user_version, application_id, text encoding, read-only on disk, HDF5 format version; list of invocations '
         'with failure points) -> SHA-256 and size of both files after every invocation; non-trivial: the state differs from '
-        'the shipped one in >= 1 dimension and >= 1 invocation reads the data base to completion')
+        'the shipped one in >= 1 dimension and >= 1 invocation reads the data base to completion. '
+        'sequence (streams sequence-fixed / sequence-random): script of 2-7 calls over a pool of long-lived objects shared by the '
+        'steps (data base objects, session makers and open sessions, signature handles, CLI contexts, QueryParams objects, query '
+        'arrays) against two different data bases, a private one a writing tool works on in between, malformed inputs -> after every '
+        'step the C18 predicate on every directory of the pool, caller objects unmodified, same call same result (vs freshly loaded '
+        'objects; sessions / handles vs the session / store machine); non-trivial: >= 1 pool object is used by >= 2 steps, >= 1 step '
+        'completes, and the script uses >= 2 data bases or contains >= 1 failing step or >= 1 repeated call')
 TRUSTED = ['SQLite / pysqlite: a connection that executes only SELECT/PRAGMA does not write to the file (explored: '
            'SHA-256, size, mtime, journal after every step; not proved)',
            'libhdf5 / h5py: a file opened in mode r is not written (explored likewise); h5py.File default mode is r '
@@ -116,7 +194,14 @@ TRUSTED = ['SQLite / pysqlite: a connection that executes only SELECT/PRAGMA doe
            'SQLite header fields of every state are recorded in the replay values); judged there: bytes (SHA-256, size) of '
            'the two files, write statements, commit, session class, handle mode -- not mtime, not side files',
            'the mapping invocation -> micro operations (Model/C18.v compile) is a summary of the CLI code paths; only '
-           'its observable consequences (sessions opened, handle modes, nothing written) are compared']
+           'its observable consequences (sessions opened, handle modes, nothing written) are compared',
+           'sequence stream: data base B, the malformed files / directories and the genome-field table the data base objects are '
+           'compared with are made / read by the harness with the sqlite3 and h5py modules (trusted to do what they are asked); '
+           '"same call, same result" compares with the same call on freshly loaded objects IN THE SAME PROCESS -- a reference for '
+           'drift, not a model of what the result should be (that is C04 / C08 / C09 / C14); in the model every session and every '
+           'handle is a machine of its own over an unchanged file, which is why long-lived sessions / handles of one case are '
+           'compared with the session / store machine one by one; a violation is confirmed in a fresh process (sys.executable -c) '
+           'before it is reported, with the earlier scripts in front if it needs the state they left (case key prior)']
 ASSUMPTIONS = ['no other process writes to the data base directory while a command runs',
                'raw DML through session.execute()/connection and committing the SessionTransaction object directly '
                'are NOT read-side use: C18_raw_dml_boundary_refuted shows (and the harness confirms on a private copy) '
@@ -127,7 +212,13 @@ ASSUMPTIONS = ['no other process writes to the data base directory while a comma
                'it closes, a reading one included, because gambit opens the file read-write -- `gambit query` changes the '
                'bytes of the genome file: genuine defect, known finding C18-wal-pending-frames; `signatures info -d`, which '
                'opens no SQLite connection, is run on the same state and must leave it alone.  The dbstate streams generate '
-               'leftover side files whose frames are all checkpointed']
+               'leftover side files whose frames are all checkpointed',
+               'sequence stream: while a writing tool holds a read-write (r+) handle on a signature file open IN THE SAME PROCESS, '
+               'libhdf5 shares that access with every later open of the file (a default load_signatures() then reports mode r+; '
+               'observed on the unchanged code, a property of libhdf5): the file is being written by its owner, outside the '
+               'property -- the writing tool of the stream closes its handle before the read-side use (its SQLAlchemy session may '
+               'stay open); data base objects, sessions and engines are not handed to a second thread (SQLite refuses, not '
+               'advertised): the thread steps load the data base in the thread']
 BATCH = 60
 SHRINK = True
 
@@ -308,6 +399,10 @@ def _class_flags(cls):
 	cache = _S.setdefault('flags', {})
 	if cls in cache:
 		return cache[cls]
+	# sessionmaker() derives an (empty) subclass of its class_ for every maker: it does what its only base does
+	if len(cls.__bases__) == 1 and not [k for k in vars(cls) if k not in ('__module__', '__doc__', '__dict__', '__weakref__')]:
+		cache[cls] = _class_flags(cls.__bases__[0])
+		return cache[cls]
 	from sqlalchemy import create_engine
 	from gambit.db.models import Genome
 	d = _private()
@@ -355,8 +450,25 @@ def setup(ctx):
 	for a in ASSUMPTIONS:
 		ctx.assume(a)
 	_selfcheck_mmap(ctx)
+	_warm_up()
 	if not ctx.replaying:
 		ctx.extra['readonly_on_disk_effective'] = (os.geteuid() != 0)   # chmod does not stop root: the state is then only a mode bit
+
+
+def _warm_up():
+	"""every invocation ends with a full gc.collect() (that is what closes the files a command left open); its cost is
+	proportional to the number of live container objects, most of which are the import-time objects of SQLAlchemy, click,
+	h5py, numpy, Bio ...: load them now and move them to the permanent generation"""
+	if _S.get('warm'):
+		return
+	_S['warm'] = True
+	try:
+		import gambit.cli, gambit.query, gambit.results, gambit.db, gambit.sigs.calc, gambit.cluster   # noqa: F401
+		import Bio.Phylo   # noqa: F401
+		gc.collect()
+		gc.freeze()
+	except Exception:
+		pass
 
 
 def finish(ctx):
@@ -410,9 +522,11 @@ def _model_flags(ctx, how):
 	return _S[key][how]
 
 
-def _run_session(case, gdb, shared):
+def _run_session(case, gdb, shared, live=None):
 	"""run the operations on the implementation; -> list of per-operation observables
-	[resp, n_new, n_dirty, n_deleted, wrote(bool), file_changed(bool), journal(bool)], problems"""
+	[resp, n_new, n_dirty, n_deleted, wrote(bool), file_changed(bool), journal(bool)], problems.
+	live (kind `sequence`): dict(s, eng, added, base) of a LONG-LIVED session that was opened earlier and stays open
+	afterwards; an exception injected at the n-th SQL statement is then the answer [8] of that operation"""
 	from sqlalchemy import update, insert, delete
 	from sqlalchemy.exc import InvalidRequestError
 	from sqlalchemy.orm.exc import FlushError
@@ -420,12 +534,15 @@ def _run_session(case, gdb, shared):
 	env = _env()
 	rec = env['rec']
 	d = os.path.dirname(gdb)
-	base = env['base'] if shared else _snap(d)
+	base = live['base'] if live is not None else (env['base'] if shared else _snap(d))
 	base_sha = base['files']['ref-genomes.gdb'][0]
 	rp = os.path.realpath(gdb)
 	n0 = len(rec['stmts'])
-	s, eng = _open_session(case['how'], case['af'], gdb)
-	added = []
+	if live is not None:
+		s, eng, added = live['s'], live['eng'], live['added']
+	else:
+		s, eng = _open_session(case['how'], case['af'], gdb)
+		added = []
 	obs, problems = [], []
 	try:
 		for i, o in enumerate(case['ops']):
@@ -509,7 +626,9 @@ def _run_session(case, gdb, shared):
 					except FlushError:
 						resp = [3]
 			except InjectedFailure:
-				raise
+				if live is None:
+					raise
+				resp = [8]
 			except Exception as e:  # an exception class the model does not know
 				resp = [9, type(e).__name__]
 			wrote = any(x[0] == rp for x in rec['stmts'][n0:])
@@ -532,12 +651,13 @@ def _run_session(case, gdb, shared):
 				if problems:
 					break
 	finally:
-		try:
-			s.close()
-		except Exception:
-			pass
-		if eng is not None:
-			eng.dispose()
+		if live is None:
+			try:
+				s.close()
+			except Exception:
+				pass
+			if eng is not None:
+				eng.dispose()
 		del s
 	return obs, problems
 
@@ -832,19 +952,24 @@ def _store_shared(case):
 	return all(o[1] in (-1, 0) for o in case['ops'] if o[0] == 0)
 
 
-def _run_store(case, gs, shared):
+def _run_store(case, gs, shared, live=None):
+	"""live (kind `sequence`): dict(sigs, is_open, held, base) of a LONG-LIVED handle slot: the signature object opened
+	by an earlier step (or None), still open or not, and the arrays taken from it so far; updated in place, nothing
+	is closed at the end"""
 	import numpy as np
 	from gambit.sigs.base import load_signatures
 	from gambit.sigs.hdf5 import load_signatures_hdf5
 	env = _env()
 	d = os.path.dirname(gs)
-	base = env['base'] if shared else _snap(d)
-	base_sha = base['files']['ref-signatures.gs'][0]
+	base = live['base'] if live is not None else (env['base'] if shared else _snap(d))
+	base_sha = base['files'][os.path.basename(gs)][0]
 	sigs = None
 	is_open = False
 	obs, problems = [], []
 	held = []          # arrays the caller took from the signature object (they outlive the handle)
 	eff = 0            # effective in-place modifications of such arrays
+	if live is not None:
+		sigs, is_open, held = live['sigs'], live['is_open'], live['held']
 
 	def rejected(e):
 		return 'no write intent' in str(e)
@@ -953,7 +1078,7 @@ def _run_store(case, gs, shared):
 				else:
 					resp = [9, type(e).__name__ + ': ' + str(e)[:80]]
 			now = _snap(d)
-			changed = now['files'].get('ref-signatures.gs', ('?',))[0] != base_sha
+			changed = now['files'].get(os.path.basename(gs), ('?',))[0] != base_sha
 			hm = -1
 			if is_open:
 				hm = MODE_CODE.get(sigs.group.file.mode, 9)
@@ -975,13 +1100,16 @@ def _run_store(case, gs, shared):
 				if problems:
 					break
 	finally:
-		try:
-			if sigs is not None and is_open:
-				sigs.group.file.close()
-		except Exception:
-			pass
+		if live is not None:
+			live['sigs'], live['is_open'] = sigs, is_open
+		else:
+			try:
+				if sigs is not None and is_open:
+					sigs.group.file.close()
+			except Exception:
+				pass
+			del held[:]       # reference counting frees the arrays (and whatever they are windows onto) here
 		del sigs
-		del held[:]       # reference counting frees the arrays (and whatever they are windows onto) here
 		if problems:
 			gc.collect()
 	return obs, problems, eff
@@ -1578,8 +1706,1096 @@ def _history_case(ctx, c, m, mflags_ok, holder):
 				          f'model {len(mcl)} / {len(mmd)}')
 
 
-KINDS = {'session': k_session, 'store': k_store, 'history': k_history, 'walpending': k_walpending}
-CORRESPONDENCES = ['session', 'store', 'history', 'walpending']
+# ------------------------------------------------------------------------------------------------
+# sequences of calls over a pool of shared, long-lived objects (kind `sequence`; docstring: "state and aliasing")
+# ------------------------------------------------------------------------------------------------
+
+SEQ_PARAMS = [dict(), dict(chunksize=7, report_closest=3), dict(chunksize=None, classify_strict=True, report_closest=1),
+              dict(chunksize=16, report_closest=10)]
+SEQ_PARAM_DEFAULTS = dict(classify_strict=False, chunksize=1000, report_closest=10)
+SEQ_VIAS = ('dir', 'files', 'cli', 'cli2', 'fresh')
+SEQ_BAD_FILES = ('trunc', 'nothdf', 'missing', 'empty')
+SEQ_BAD_DIRS = ('truncgdb', 'truncgs', 'nofiles', 'twogdb')
+
+
+class _SeqProblem(Exception):
+	"""the property predicate (or one of the two sequence checks) is false after a step"""
+
+
+def _sha_obj(x):
+	return hashlib.sha1(repr(x).encode()).hexdigest()[:16]
+
+
+def _build_variant(env, d, values, bounds, ids, attrs):
+	"""data base B: ANOTHER reference data base (other size, other order, other content), made by the harness with the
+	sqlite3 / h5py modules from the shipped one: 170-odd signatures in REVERSED order, the genomes of the dropped
+	signatures and every 7th other genome removed (so B also has signatures without a genome), genome set renamed"""
+	import sqlite3
+	import numpy as np
+	import h5py
+	n = len(bounds) - 1
+	keep = [i for i in reversed(range(n)) if not (i >= 10 and i % 5 == 4)]
+	g, gs = os.path.join(d, DB_FILES[0]), os.path.join(d, DB_FILES[1])
+	shutil.copy(os.path.join(env['pristine'], DB_FILES[0]), g)
+	with h5py.File(gs, 'w') as f:
+		for k, v in attrs.items():
+			f.attrs.create(k, v)
+		f.attrs['name'] = 'testdb_variant_B'
+		f.create_dataset('ids', data=np.array([ids[i] for i in keep], dtype=object), dtype=h5py.string_dtype())
+		f.create_dataset('values', data=np.concatenate([values[bounds[i]:bounds[i + 1]] for i in keep]))
+		nb = np.zeros(len(keep) + 1, dtype=bounds.dtype)
+		nb[1:] = np.cumsum([bounds[i + 1] - bounds[i] for i in keep])
+		f.create_dataset('bounds', data=nb)
+	kept_keys = {ids[i].decode() for i in keep}
+	con = sqlite3.connect(g)
+	try:
+		rows = con.execute('SELECT id, key FROM genomes').fetchall()
+		drop = [i for i, k in rows if k not in kept_keys or (i > 10 and i % 7 == 0)]
+		con.executemany('DELETE FROM genome_annotations WHERE genome_id = ?', [(i,) for i in drop])
+		con.executemany('DELETE FROM genomes WHERE id = ?', [(i,) for i in drop])
+		con.execute("UPDATE genome_sets SET name = 'variant B'")
+		con.commit()
+	finally:
+		con.close()
+	return dict(nsig=len(keep), ngenomes=len(rows) - len(drop))
+
+
+def _genome_table(gdb):
+	"""what the harness knows about the genomes of a data base (read with sqlite3, not through gambit)"""
+	import sqlite3
+	con = sqlite3.connect(gdb)
+	try:
+		return {int(r[0]): [r[1], r[2], r[3], r[4]] for r in con.execute(
+			'SELECT g.id, g.key, g.description, a.taxon_id, a.organism FROM genomes g JOIN genome_annotations a ON a.genome_id = g.id')}
+	finally:
+		con.close()
+
+
+def _seq_env():
+	env = _env()
+	if 'seq' in env:
+		return env['seq']
+	import h5py
+	sq = {}
+	with h5py.File(os.path.join(env['pristine'], DB_FILES[1]), 'r') as f:
+		v, b = f['values'][:], f['bounds'][:]
+		ids = [bytes(x) for x in f['ids'][:]]
+		attrs = {k: f.attrs[k] for k in f.attrs}
+	sq['rows'] = [v[b[i]:b[i + 1]].copy() for i in range(len(b) - 1)]
+	with h5py.File(env['querysigs'], 'r') as f:
+		qv, qb = f['values'][:], f['bounds'][:]
+	sq['qrows'] = [qv[qb[i]:qb[i + 1]].copy() for i in range(len(qb) - 1)]
+	root = env['root']
+	pb = os.path.join(root, 'pristineB')
+	os.makedirs(pb)
+	sq['variant'] = _build_variant(env, pb, v, b, ids, attrs)
+	sq['pristineB'] = pb
+	sq['dbB'] = os.path.join(root, 'dbB')
+	sq['table'] = dict(A=_genome_table(os.path.join(env['pristine'], DB_FILES[0])), B=_genome_table(os.path.join(pb, DB_FILES[0])))
+	sq['table']['W'] = sq['table']['A']
+	# the query signature file in a directory of its own (the snapshot of a directory hashes every file in it)
+	qd = os.path.join(root, 'qsigs')
+	os.makedirs(qd)
+	shutil.copy(env['querysigs'], os.path.join(qd, 'query-signatures.gs'))
+	sq['Q'] = dict(d=qd, gdb=None, gs=os.path.join(qd, 'query-signatures.gs'), base=_snap(qd))
+	# malformed files and directories
+	bad = os.path.join(root, 'seqbad')
+	os.makedirs(bad)
+	raw_gs = open(os.path.join(env['pristine'], DB_FILES[1]), 'rb').read()
+	raw_gdb = open(os.path.join(env['pristine'], DB_FILES[0]), 'rb').read()
+	files = dict(trunc=raw_gs[:3000], nothdf=b'# not an HDF5 file\n' * 40, empty=b'')
+	sq['badfile'] = {}
+	for k, data in files.items():
+		p = os.path.join(bad, k + '.gs')
+		with open(p, 'wb') as f:
+			f.write(data)
+		sq['badfile'][k] = p
+	sq['badfile']['missing'] = os.path.join(bad, 'missing.gs')
+	sq['baddir'] = {}
+	for k, content in dict(truncgdb={DB_FILES[0]: raw_gdb[:5000], DB_FILES[1]: raw_gs}, truncgs={DB_FILES[0]: raw_gdb, DB_FILES[1]: raw_gs[:3000]},
+	                       nofiles={}, twogdb={'a.gdb': raw_gdb, 'b.gdb': raw_gdb, DB_FILES[1]: raw_gs}).items():
+		dd = os.path.join(bad, k)
+		os.makedirs(dd)
+		for n, data in content.items():
+			with open(os.path.join(dd, n), 'wb') as f:
+				f.write(data)
+		sq['baddir'][k] = dd
+	sq['ref'] = {}
+	env['seq'] = sq
+	_restore_B()
+	return sq
+
+
+def _restore_B():
+	gc.collect()
+	sq = _S['seq']
+	d = sq['dbB']
+	if os.path.exists(d):
+		shutil.rmtree(d)
+	shutil.copytree(sq['pristineB'], d)
+	sq['B'] = dict(d=d, gdb=os.path.join(d, DB_FILES[0]), gs=os.path.join(d, DB_FILES[1]), base=_snap(d))
+
+
+class _Names:
+	"""the names db / gdb / gs / base of the environment (read by _run_invocation and by the statement recorder's failure
+	injection) point to the directory of a pool data base while a step runs"""
+
+	def __init__(self, dd):
+		self.dd = dd
+
+	def __enter__(self):
+		env = _env()
+		self.saved = {k: env[k] for k in ('db', 'gdb', 'gs', 'base')}
+		env['db'], env['gdb'], env['gs'], env['base'] = self.dd['d'], self.dd['gdb'], self.dd['gs'], self.dd['base']
+
+	def __exit__(self, *exc):
+		_env().update(self.saved)
+		return False
+
+
+class _Pool:
+	"""the long-lived objects of one sequence case, created on first use and kept until the end of the case"""
+
+	def __init__(self):
+		self.env = _env()
+		self.sq = _seq_env()
+		self.dirs = {}
+		self.makers = {}       # (db, how, af) -> dict(kind, obj, make, engine, fp)
+		self.sessions = {}     # (db, how, af, slot) -> dict(s, eng, added, base, ops, obs, tainted)
+		self.clictx = {}       # db -> CLIContext
+		self.rdbs = {}         # (db, via) -> dict(rdb, fp)
+		self.handles = {}      # (file, slot) -> dict(sigs, is_open, held, base, ops, obs)
+		self.params = {}       # index -> QueryParams
+		self.arrays = {}       # literal -> (caller object, list of byte strings)
+		self.held = []         # contrast objects kept open on W
+		self.uses = {}         # pool object -> number of steps that used it
+		self.dbs_used = set()
+
+	def use(self, key):
+		self.uses[key] = self.uses.get(key, 0) + 1
+
+	def dir(self, name):
+		if name in self.dirs:
+			return self.dirs[name]
+		env = self.env
+		if name == 'A':
+			dd = dict(d=env['db'], gdb=env['gdb'], gs=env['gs'], base=env['base'])
+		elif name == 'B':
+			dd = self.sq['B']
+		elif name == 'Q':
+			dd = self.sq['Q']
+		elif name == 'W':
+			d = _private()
+			os.remove(os.path.join(d, 'Readme.md'))
+			dd = dict(d=d, gdb=os.path.join(d, DB_FILES[0]), gs=os.path.join(d, DB_FILES[1]), base=_snap(d), private=True)
+		else:
+			raise ValueError(name)
+		dd['name'] = name
+		self.dirs[name] = dd
+		return dd
+
+	# ---- session makers and sessions ---------------------------------------------------------------------------
+	def maker(self, db, how, af):
+		key = (db, how, af)
+		if key in self.makers:
+			return self.makers[key]
+		from gambit.db.sqla import file_sessionmaker, ReadOnlySession
+		gdb = self.dir(db)['gdb']
+		if how == 'cli':
+			obj = self.cli(db)
+			mk = dict(kind='cli', obj=obj, make=lambda: obj.Session(), engine=lambda: obj.engine)
+		elif how == 'explicit':
+			m = file_sessionmaker(gdb, cls=ReadOnlySession, autoflush=bool(af))
+			mk = dict(kind='mk', obj=m, make=m, engine=lambda: m.kw['bind'])
+		elif how == 'default':
+			# (autoflush on is the default: the call the library itself makes, file_sessionmaker(path), without options)
+			m = file_sessionmaker(gdb) if af else file_sessionmaker(gdb, autoflush=False)
+			mk = dict(kind='mk', obj=m, make=m, engine=lambda: m.kw['bind'])
+		else:
+			raise ValueError(how)
+		mk['fp'] = _maker_fp(mk)
+		self.makers[key] = mk
+		return mk
+
+	def cli(self, db):
+		if db not in self.clictx:
+			from gambit.cli import cli
+			from gambit.cli.common import CLIContext
+			c = cli.make_context('gambit', ['-d', self.dir(db)['d'], 'query'])
+			self.clictx[db] = CLIContext(c)
+		return self.clictx[db]
+
+	def session(self, db, how, af, slot):
+		key = (db, how, af, slot)
+		if key not in self.sessions:
+			try:
+				mk = self.maker(db, how, af)
+				self.sessions[key] = dict(s=mk['make'](), eng=None, added=[], ops=[], obs=[], tainted=False)
+			except Exception as e:
+				raise _SeqProblem(f'a {how} session on data base {db} could not be obtained at this point of the sequence: {type(e).__name__}: {str(e)[:200]}')
+		return self.sessions[key]
+
+	# ---- reference data base objects -----------------------------------------------------------------------------
+	def rdb(self, db, via):
+		key = (db, via)
+		if key in self.rdbs:
+			return self.rdbs[key]
+		from gambit.db import ReferenceDatabase
+		dd = self.dir(db)
+		if via not in ('dir', 'files', 'cli', 'cli2'):
+			raise ValueError(via)
+		try:
+			if via == 'dir':
+				r = ReferenceDatabase.load_from_dir(dd['d'])
+			elif via == 'files':
+				r = ReferenceDatabase.load(dd['gdb'], dd['gs'])
+			else:
+				r = self.cli(db).get_database()       # cli2: a second data base object from the SAME CLI context (same signature handle)
+		except Exception as e:
+			raise _SeqProblem(f'data base {db} (a well-formed data base that loads in a fresh process) could not be loaded via {via} at this point '
+			                  f'of the sequence: {type(e).__name__}: {str(e)[:200]}')
+		try:
+			fp = _rdb_fp(r, self.sq['table'][db])
+		except Exception as e:
+			_close_rdb(r)
+			raise _SeqProblem(f'the ReferenceDatabase object of data base {db} just obtained via {via} cannot be inspected (genomes, their fields, '
+			                  f'signature metadata): {type(e).__name__}: {str(e)[:200]}')
+		if fp['fields_differ'] or fp['pending'] != [0, 0, 0]:
+			_close_rdb(r)
+			raise _SeqProblem(f'the ReferenceDatabase object of data base {db} just obtained via {via} does not show the content of the genome file '
+			                  f'(genome id, [key, description, taxon, organism] as loaded): {fp["fields_differ"][:3]}, pending changes {fp["pending"]}')
+		self.rdbs[key] = dict(rdb=r, fp=fp)
+		return self.rdbs[key]
+
+	def drop_rdb(self, db, via):
+		ent = self.rdbs.pop((db, via), None)
+		if ent is not None:
+			_close_rdb(ent['rdb'])
+		if via in ('cli', 'cli2'):
+			# the CLI context caches its signature handle: a context whose handle was closed is not reused, nor is the
+			# other data base object made from it
+			other = self.rdbs.pop((db, 'cli2' if via == 'cli' else 'cli'), None)
+			if other is not None:
+				_close_rdb(other['rdb'])
+			self.clictx.pop(db, None)
+			for k in [k for k in self.makers if k[0] == db and k[1] == 'cli']:
+				del self.makers[k]
+
+	# ---- caller-supplied arguments ---------------------------------------------------------------------------------
+	def param(self, i):
+		i = int(i) % len(SEQ_PARAMS)
+		if i not in self.params:
+			from gambit.query import QueryParams
+			self.params[i] = QueryParams(**SEQ_PARAMS[i])
+		return i, self.params[i]
+
+	def queries(self, q):
+		"""the caller's query signatures for the literal q: the SAME object every time the literal is used"""
+		key = json.dumps(q)
+		if key in self.arrays:
+			return self.arrays[key]
+		rows = self.sq['rows'] if q[0] in ('ref', 'sa') else self.sq['qrows']
+		arrs = [rows[int(i) % len(rows)].copy() for i in q[1]]
+		if q[0] == 'sa':
+			from gambit.sigs import SignatureArray
+			from gambit.kmers import KmerSpec
+			obj = SignatureArray(arrs, KmerSpec(6, 'AT'))
+			watch = [obj.values, obj.bounds]
+		else:
+			obj = arrs
+			watch = arrs
+		self.arrays[key] = (obj, watch, [a.tobytes() for a in watch])
+		return self.arrays[key]
+
+	def close(self):
+		for ent in self.sessions.values():
+			try:
+				ent['s'].close()
+			except Exception:
+				pass
+		for h in self.held:
+			try:
+				h()
+			except Exception:
+				pass
+		for mk in self.makers.values():
+			try:
+				e = mk['engine']()
+				if e is not None:
+					e.dispose()
+			except Exception:
+				pass
+		for ent in self.rdbs.values():
+			_close_rdb(ent['rdb'])
+		for ent in self.handles.values():
+			try:
+				if ent['sigs'] is not None and ent['is_open']:
+					ent['sigs'].group.file.close()
+			except Exception:
+				pass
+			del ent['held'][:]
+		for c in self.clictx.values():
+			try:
+				if c._signatures is not None:
+					c._signatures.close()
+				if c._engine is not None:
+					c._engine.dispose()
+			except Exception:
+				pass
+		self.sessions.clear(), self.makers.clear(), self.rdbs.clear(), self.handles.clear(), self.clictx.clear()
+		self.arrays.clear(), self.params.clear()
+		del self.held[:]
+		gc.collect()      # (cheap: the import-time objects are in the permanent generation, see _warm_up)
+		w = self.dirs.get('W')
+		if w is not None:
+			shutil.rmtree(w['d'], ignore_errors=True)
+
+
+def _close_rdb(rdb):
+	for f in (lambda: rdb.signatures.close(), lambda: rdb.session.close(), lambda: rdb.session.bind.dispose()):
+		try:
+			f()
+		except Exception:
+			pass
+
+
+def _maker_fp(mk):
+	"""observable configuration of a session maker / CLI context (must not change while it is used)"""
+	if mk['kind'] == 'cli':
+		o = mk['obj']
+		m = o.Session
+		return dict(db_path=str(o.db_path), url=str(o.engine.url), cls=[c.__name__ for c in m.class_.__mro__[:3]],
+		            ids=[id(o._engine), id(o._Session)], kw=sorted((k, repr(v)) for k, v in m.kw.items() if k != 'bind'))
+	m = mk['obj']
+	return dict(url=str(m.kw['bind'].url), cls=[c.__name__ for c in m.class_.__mro__[:3]], ids=[id(m.kw['bind'])],
+	            kw=sorted((k, repr(v)) for k, v in m.kw.items() if k != 'bind'))
+
+
+def _rdb_fp(rdb, table):
+	"""observable state of a ReferenceDatabase a caller holds; the genome fields are compared with what the harness read
+	from the genome file with sqlite3"""
+	import attr
+	from sqlalchemy import inspect as sa_inspect
+	s, sig = rdb.session, rdb.signatures
+	n = len(rdb.genomes)
+	sample = sorted({0, 1, 2, n // 3, n // 2, n - 2, n - 1} & set(range(n)))
+	fields_bad = []
+	for i in sample:
+		g = rdb.genomes[i]
+		got = [g.genome.key, g.genome.description, g.taxon_id, g.organism]
+		if table.get(int(g.genome_id)) != got:
+			fields_bad.append([int(g.genome_id), got])
+	is_open = bool(sig)
+	return dict(attrs=[k for k in ('genomeset', 'genomes', 'signatures', 'sig_indices', 'session') if k in vars(rdb)],
+	            n=n, genomes=_sha_obj([sa_inspect(g).identity for g in rdb.genomes]), objects=_sha_obj([id(g) for g in rdb.genomes]),
+	            sig_indices=_sha_obj([int(i) for i in rdb.sig_indices]),
+	            ident=[id(s), id(sig), id(rdb.genomeset), id(rdb.genomes), id(rdb.sig_indices), id(s.bind)],
+	            pending=[len(s.new), len(s.dirty), len(s.deleted)], session_class=type(s).__mro__[1].__name__ if len(type(s).__mro__) > 1 else '',
+	            open=is_open, nsig=len(sig) if is_open else -1, ids=_sha_obj(list(sig.ids)), meta=repr(attr.asdict(sig.meta)),
+	            kspec=[int(sig.kmerspec.k), sig.kmerspec.prefix_str], fields_differ=fields_bad,
+	            gset=[rdb.genomeset.id, rdb.genomeset.key, rdb.genomeset.version, rdb.genomeset.name])
+
+
+def _results_digest(res):
+	import numpy as np
+	tx = lambda t: None if t is None else int(t.id)
+	gm = lambda m: None if m is None else [int(m.genome.genome_id), int(np.float32(m.distance).view(np.uint32)), tx(m.matched_taxon)]
+	items = []
+	for it in res.items:
+		cr = it.classifier_result
+		items.append([it.input.label, int(bool(cr.success)), tx(cr.predicted_taxon), gm(cr.primary_match), gm(cr.closest_match),
+		              tx(cr.next_taxon), list(cr.warnings), cr.error, tx(it.report_taxon), [gm(m) for m in it.closest_genomes]])
+	return _sha_obj([items, res.genomeset.key, res.genomeset.name, res.signaturesmeta.name])
+
+
+def _in_thread(fn):
+	"""(SQLite refuses to close a connection from another thread than the one that opened it: garbage holding connections
+	is collected by the thread that made it -- before the other thread starts, and before it ends)"""
+	import threading
+	box = {}
+
+	def run():
+		try:
+			box['r'] = fn()
+		except BaseException as e:
+			box['e'] = e
+		gc.collect()
+
+	gc.collect()
+	t = threading.Thread(target=run)
+	t.start()
+	t.join()
+	if 'e' in box:
+		raise box['e']
+	return box.get('r')
+
+
+def _bad_queries(pool, how, at):
+	"""caller-supplied query signatures that make the call fail part-way"""
+	import numpy as np
+	rows = pool.sq['rows']
+	good = [rows[(7 * i + 3) % len(rows)].copy() for i in range(4)]
+	at = int(at) % 4
+	if how == 'iter':
+		def gen():
+			for i, a in enumerate(good):
+				if i == at:
+					raise RuntimeError('the iterator supplied by the caller failed')
+				yield a
+		return gen(), {}
+	if how == 'dtype':
+		bad = list(good)
+		bad[at] = rows[5].astype(np.float64) + 0.5
+		return bad, {}
+	if how == 'object':
+		bad = list(good)
+		bad[at] = 'not a signature'
+		return bad, {}
+	if how == 'ndim':
+		bad = list(good)
+		bad[at] = np.zeros((2, 3), dtype=np.uint16)
+		return bad, {}
+	if how == 'empty':
+		return [], {}
+	if how == 'inputs':
+		return good, dict(inputs=['x', 'y'])
+	return good, {}
+
+
+def _seq_query_call(pool, st, rdb, fresh_args=False):
+	"""the call `query(rdb, queries, params, ...)` of a step; -> digest.  fresh_args: arguments made for this call only
+	(reference run); otherwise the pool's long-lived params object and arrays"""
+	import io
+	from gambit.query import query, QueryParams
+	if fresh_args:
+		p = QueryParams(**SEQ_PARAMS[int(st.get('p', 0)) % len(SEQ_PARAMS)])
+		rows = pool.sq['rows'] if st['q'][0] in ('ref', 'sa') else pool.sq['qrows']
+		qs = [rows[int(i) % len(rows)].copy() for i in st['q'][1]]
+		if st['q'][0] == 'sa':
+			from gambit.sigs import SignatureArray
+			from gambit.kmers import KmerSpec
+			qs = SignatureArray(qs, KmerSpec(6, 'AT'))
+	else:
+		p = pool.param(st.get('p', 0))[1]
+		qs = pool.queries(st['q'])[0]
+	kw = {}
+	if st.get('inputs'):
+		kw['inputs'] = ['in%d' % i for i in range(len(st['q'][1]))]
+	res = query(rdb, qs, p, **kw)
+	dg = _results_digest(res)
+	if st.get('exp'):
+		from gambit.results import CSVResultsExporter, JSONResultsExporter, ResultsArchiveWriter
+		ex = dict(csv=CSVResultsExporter, json=JSONResultsExporter, archive=ResultsArchiveWriter)[st['exp']]()
+		buf = io.StringIO()
+		ex.export(buf, res)
+		if not buf.getvalue():
+			raise _SeqProblem(f'the {st["exp"]} exporter wrote nothing')
+	return dg
+
+
+def _seq_dist_call(pool, st, rdb, fresh_args=False):
+	from gambit.metric import jaccarddist_matrix
+	if fresh_args:
+		rows = pool.sq['rows'] if st['q'][0] in ('ref', 'sa') else pool.sq['qrows']
+		qs = [rows[int(i) % len(rows)].copy() for i in st['q'][1]]
+	else:
+		qs = pool.queries(['ref' if st['q'][0] == 'sa' else st['q'][0], st['q'][1]])[0]
+	d = jaccarddist_matrix(qs, rdb.signatures, ref_indices=rdb.sig_indices, chunksize=st.get('chunk'))
+	return _sha_obj([list(d.shape), str(d.dtype), hashlib.sha1(d.tobytes()).hexdigest()])
+
+
+def _cli_digest(inv, idx):
+	"""what a completed CLI invocation wrote to its -o file (csv output of query / dist only: other formats carry a time stamp)"""
+	if inv['cmd'] in ('querysig', 'dist') or (inv['cmd'] == 'query' and inv.get('fmt', 'csv') == 'csv'):
+		p = os.path.join(_env()['out'], f'o{idx}')
+		try:
+			return _sha(p)[:16]
+		except OSError:
+			return 'no output file'
+	return None
+
+
+def _seq_ref_key(st):
+	"""what the result of a call depends on (a SignatureArray of the same rows gives the result of the list; an export afterwards
+	does not change the result)"""
+	keep = {k: st[k] for k in ('op', 'db', 'q', 'p', 'inputs', 'chunk', 'inv') if k in st}
+	if 'q' in keep and keep['q'][0] == 'sa':
+		keep['q'] = ['ref', keep['q'][1]]
+	return json.dumps(keep, sort_keys=True)
+
+
+def _seq_reference(pool, st):
+	"""result of the same call on FRESH objects (a data base loaded for this call alone, arguments made for it alone);
+	cached for the campaign.  -> ('ok', digest) | ('raised', type name)"""
+	ref = pool.sq['ref']
+	key = _seq_ref_key(st)
+	if key in ref:
+		return ref[key]
+	from gambit.db import ReferenceDatabase
+	dd = pool.dir(st['db'])
+	try:
+		if st['op'] == 'cli':
+			with _Names(dd):
+				r = _run_invocation(st['inv'], 900, True)
+			out = ('ok', _cli_digest(st['inv'], 900)) if r['status'] == 'ok' else ('raised', r['status'] + ': ' + r['detail'][:160])
+		else:
+			rdb = ReferenceDatabase.load_from_dir(dd['d'])
+			try:
+				dg = _seq_query_call(pool, st, rdb, True) if st['op'] == 'query' else _seq_dist_call(pool, st, rdb, True)
+			finally:
+				_close_rdb(rdb)
+				del rdb
+			out = ('ok', dg)
+	except Exception as e:
+		out = ('raised', f'{type(e).__name__}: {str(e)[:160]}')
+	ref[key] = out
+	return out
+
+
+def _seq_check_args(pool, st):
+	"""the caller's params object and query arrays are what they were before the call"""
+	import attr
+	if 'p' in st:
+		i, p = pool.param(st['p'])
+		want = dict(SEQ_PARAM_DEFAULTS)
+		want.update(SEQ_PARAMS[i])
+		if attr.asdict(p) != want:
+			raise _SeqProblem(f'the QueryParams object supplied by the caller was modified by the call: {attr.asdict(p)} (it was {want})')
+	if 'q' in st and st['op'] in ('query', 'dist'):
+		q = ['ref' if (st['op'] == 'dist' and st['q'][0] == 'sa') else st['q'][0], st['q'][1]]
+		key = json.dumps(q)
+		if key in pool.arrays:
+			obj, watch, before = pool.arrays[key]
+			for k, (a, b) in enumerate(zip(watch, before)):
+				if a.tobytes() != b:
+					raise _SeqProblem(f'query signature array {k} supplied by the caller was modified by the call')
+			if isinstance(obj, list) and len(obj) != len(before):
+				raise _SeqProblem('the list of query signatures supplied by the caller was modified by the call')
+
+
+def _seq_check_objects(pool):
+	"""every long-lived object the caller holds is what it was when it was obtained"""
+	for (db, via), ent in list(pool.rdbs.items()):
+		try:
+			now = _rdb_fp(ent['rdb'], pool.sq['table'][db])
+		except Exception as e:
+			raise _SeqProblem(f'the ReferenceDatabase object of data base {db} (obtained via {via}) can no longer be inspected: {type(e).__name__}: {str(e)[:120]}')
+		if now != ent['fp']:
+			diff = {k: [ent['fp'][k], now[k]] for k in now if now[k] != ent['fp'].get(k)}
+			raise _SeqProblem(f'the ReferenceDatabase object of data base {db} (obtained via {via}) was modified by a read-side call: {diff}')
+	for key, mk in list(pool.makers.items()):
+		try:
+			now = _maker_fp(mk)
+		except Exception as e:
+			raise _SeqProblem(f'the session maker {key} can no longer be inspected: {type(e).__name__}: {str(e)[:120]}')
+		if now != mk['fp']:
+			raise _SeqProblem(f'the session maker {key} was modified: {mk["fp"]} -> {now}')
+
+
+def _seq_marks():
+	rec = _env()['rec']
+	return [len(rec[k]) for k in ('stmts', 'classes', 'modes', 'journal')]
+
+
+def _seq_judge_recorders(pool, marks, allow=()):
+	"""what the recorders saw since `marks` on the files of the pool (allow: paths a contrast step may write to)"""
+	rec = pool.env['rec']
+	gdbs, gss = {}, {}
+	for name, dd in pool.dirs.items():
+		if dd.get('gdb'):
+			gdbs[os.path.realpath(dd['gdb'])] = name
+		gss[os.path.realpath(dd['gs'])] = name
+	stm = sorted({(gdbs[x[0]], x[1]) for x in rec['stmts'][marks[0]:] if x[0] in gdbs and x[0] not in allow})
+	if stm:
+		raise _SeqProblem(f'write statement(s) {[w for _, w in stm]} reached the cursor of the genome file of data base {stm[0][0]}')
+	for p, k in rec['classes'][marks[1]:]:
+		if p in gdbs and p not in allow:
+			pool.env.setdefault('seen_classes', set()).add(k.__name__)
+			fl = _class_flags(k)
+			if list(fl) != [1, 1]:
+				raise _SeqProblem(f'a session on the genome file of data base {gdbs[p]} is a {k.__name__} whose flush is '
+				                  f'{"a no-op" if fl[0] else "REAL"} and whose commit {"raises" if fl[1] else "is ALLOWED"} (not a read-only session)')
+	for x in rec['modes'][marks[2]:]:
+		if x[0] in gss and x[0] not in allow:
+			pool.env.setdefault('seen_modes', []).append(x)
+			if x[1] != 'r':
+				raise _SeqProblem(f'the signature file of {gss[x[0]]} was opened in mode {x[1]!r}')
+	for p, extra in rec['journal'][marks[3]:]:
+		if p in gdbs and p not in allow and not pool.dirs[gdbs[p]].get('private'):
+			raise _SeqProblem(f'journal file(s) {extra} appeared next to the genome file of data base {gdbs[p]}')
+
+
+def _seq_judge_files(pool):
+	for name, dd in pool.dirs.items():
+		df = _diff(dd['base'], _snap(dd['d']))
+		if df:
+			raise _SeqProblem(f'the directory of data base {name} changed: ' + _with_damage(df, dd['gs']))
+
+
+def _seq_contrast(pool, st):
+	"""a WRITING tool at work in the same process on the private data base W (same paths as the later read-side uses of W);
+	it may change W: the baseline of W is taken again afterwards"""
+	from sqlalchemy.orm import Session
+	from gambit.db.sqla import file_sessionmaker
+	from gambit.db.models import Genome
+	from gambit.sigs.base import load_signatures
+	dd = pool.dir('W')
+	what = st.get('what', 'plain')
+	status = 'ok'
+	if what not in ('plain', 'cls', 'rplus'):
+		raise ValueError(what)
+	try:
+		status = _seq_contrast_tool(pool, st, dd, what)
+	except Exception as e:
+		# e.g. libhdf5 refuses a read-write open while a read-only handle on the file is open in this process
+		status = f'the writing tool failed: {type(e).__name__}: {str(e)[:120]}'
+	gc.collect()
+	dd['base'] = _snap(dd['d'])
+	for ent in pool.handles.values():
+		if ent.get('file') == 'W':
+			ent['base'] = dd['base']
+	return status
+
+
+def _seq_contrast_tool(pool, st, dd, what):
+	from sqlalchemy.orm import Session
+	from gambit.db.sqla import file_sessionmaker
+	from gambit.db.models import Genome
+	from gambit.sigs.base import load_signatures
+	if what in ('plain', 'cls'):
+		mk = file_sessionmaker(dd['gdb'], readonly=False) if what == 'plain' else file_sessionmaker(dd['gdb'], cls=Session)
+		s = mk()
+		s.query(Genome).filter_by(id=1).one_or_none()
+		if st.get('edit'):
+			k = ADD_BASE + 50000 + len(pool.held) + int(st.get('edit'))
+			if s.query(Genome).filter_by(id=k).one_or_none() is None:
+				s.add(Genome(id=k, key=f'c18/w{k}', description='added by a writing tool'))
+			s.commit()
+
+		def done():
+			s.close()
+			mk.kw['bind'].dispose()
+		if st.get('hold'):
+			s.rollback()        # the tool keeps its session, with no transaction open
+			pool.held.append(done)
+		else:
+			done()
+	elif what == 'rplus':
+		h = load_signatures(dd['gs'], mode='r+')
+		_ = h[0]
+		if st.get('edit'):
+			h.group.attrs['c18_tool'] = int(st.get('edit'))
+			h.group.file.flush()
+		# (the tool closes its handle before anybody reads: while a read-write handle is open IN THIS PROCESS libhdf5 shares
+		# its access mode with every later open of the same file, see ASSUMPTIONS)
+		h.group.file.close()
+	return 'ok'
+
+
+def _seq_step(pool, st, idx):
+	"""run one step; -> dict(status, digest, ...).  Raises _SeqProblem when the step itself shows a violation"""
+	op = st['op']
+	env = pool.env
+	rec = env['rec']
+	out = dict(status='ok')
+	if op in ('query', 'dist', 'qfail'):
+		db, via = st['db'], st.get('via', 'dir')
+		pool.dbs_used.add(db)
+		fresh = via == 'fresh'
+		if fresh:
+			from gambit.db import ReferenceDatabase
+			dd = pool.dir(db)
+
+			def call():
+				rdb = ReferenceDatabase.load_from_dir(dd['d'])
+				try:
+					return _seq_query_call(pool, st, rdb) if op == 'query' else _seq_dist_call(pool, st, rdb)
+				finally:
+					_close_rdb(rdb)
+			rdb = None
+		else:
+			ent = pool.rdb(db, via)
+			pool.use(('rdb', db, via))
+			rdb = ent['rdb']
+		if op == 'qfail':
+			from gambit.query import query
+			qs, kw = _bad_queries(pool, st.get('how', 'iter'), st.get('at', 0))
+			p = pool.param(st.get('p', 0))[1]
+			if st.get('how') == 'sql':
+				rec['nsql'], rec['fail_at'] = 0, max(1, int(st.get('at', 1)))
+			try:
+				with _Names(pool.dir(db)):
+					query(rdb, qs, p, **kw)
+				out['status'] = 'ok (the bad input was accepted)'
+			except _SeqProblem:
+				raise
+			except Exception as e:
+				out['status'] = 'raised ' + type(e).__name__
+			finally:
+				rec['fail_at'] = None
+			return out
+		for k in ('p', 'q'):
+			if k in st and not fresh:
+				pool.use((k, json.dumps(st[k])))
+		want = _seq_reference(pool, st)
+		if want[0] != 'ok':
+			raise _SeqProblem(f'a well-formed call fails even on freshly loaded objects at this point of the campaign (it succeeds in a fresh '
+			                  f'process): {want}')
+		try:
+			if fresh:
+				dg = _in_thread(call) if st.get('thread') else call()
+			else:
+				dg = _seq_query_call(pool, st, rdb) if op == 'query' else _seq_dist_call(pool, st, rdb)
+			got = ('ok', dg)
+		except Exception as e:
+			got = ('raised', type(e).__name__)
+			out['status'] = f'raised {type(e).__name__}: {str(e)[:160]}'
+		out['digest'] = got[1]
+		if got != want:
+			raise _SeqProblem(f'same call, other result: on freshly loaded objects this call gives {want}, here it gives {got}'
+			                  + (f' ({out["status"]})' if got[0] == 'raised' else ''))
+		_seq_check_args(pool, st)
+		return out
+	if op == 'edit':
+		# the client edits, in memory, an ORM object it got from the data base object, and tries to make that permanent
+		db, via = st['db'], st.get('via', 'dir')
+		if via == 'fresh':
+			via = 'dir'
+		pool.dbs_used.add(db)
+		ent = pool.rdb(db, via)
+		pool.use(('rdb', db, via))
+		rdb = ent['rdb']
+		try:
+			g = rdb.genomes[int(st.get('i', 0)) % len(rdb.genomes)].genome
+			g.description = f'{PFX}{int(st.get("v", 1))}'
+			if st.get('flush'):
+				rdb.session.flush()
+			if st.get('commit'):
+				try:
+					rdb.session.commit()
+				except TypeError:
+					pass
+				else:
+					raise _SeqProblem(f'commit() on the session of the ReferenceDatabase object of data base {db} (obtained via {via}) did not raise TypeError')
+		finally:
+			ent['fp'] = _rdb_fp(rdb, pool.sq['table'][db])      # the caller's own edit is part of what it holds from now on
+		return out
+	if op == 'close':
+		db, via = st['db'], st.get('via', 'dir')
+		if (db, via) in pool.rdbs:
+			pool.drop_rdb(db, via)
+		else:
+			out['status'] = 'nothing to close'
+		return out
+	if op == 'sess':
+		db, how, af, slot = st['db'], st.get('how', 'default'), (1 if st.get('how') == 'cli' else int(st.get('af', 1))), int(st.get('slot', 0))
+		pool.dbs_used.add(db)
+		dd = pool.dir(db)
+		ent = pool.session(db, how, af, slot)
+		pool.use(('session', db, how, af, slot))
+		pool.use(('maker', db, how, af))
+		ent['base'] = dd['base']
+		if st.get('fail'):
+			ent['tainted'] = True
+		case = dict(how=how, af=af, ops=st['ops'])
+		with _Names(dd):
+			rec['nsql'], rec['fail_at'] = 0, (int(st['fail']) if st.get('fail') else None)
+			try:
+				obs, problems = _run_session(case, dd['gdb'], True, live=ent)
+			finally:
+				rec['fail_at'] = None
+		ent['ops'] += [list(o) for o in st['ops'][:len(obs)]]
+		ent['obs'] += obs
+		if any(ob[0] == [8] for ob in obs):
+			out['status'] = 'an operation failed (injected)'
+		if problems:
+			raise _SeqProblem(f'session {how} (slot {slot}) on data base {db}: {problems[0][1]}')
+		return out
+	if op == 'store':
+		f, slot = st.get('f', 'A'), int(st.get('slot', 0))
+		dd = pool.dir(f)
+		pool.dbs_used.add(f)
+		key = (f, slot)
+		if key not in pool.handles:
+			pool.handles[key] = dict(sigs=None, is_open=False, held=[], ops=[], obs=[], file=f)
+		ent = pool.handles[key]
+		pool.use(('handle', f, slot))
+		ent['base'] = dd['base']
+		obs, problems, eff = _run_store(dict(ops=st['ops']), dd['gs'], True, live=ent)
+		ent['ops'] += [list(o) for o in st['ops'][:len(obs)]]
+		ent['obs'] += obs
+		out['eff'] = eff
+		if problems:
+			raise _SeqProblem(f'signature handle (slot {slot}) on the signature file of {f}: {problems[0]}')
+		return out
+	if op == 'cli':
+		db = st['db']
+		pool.dbs_used.add(db)
+		dd = pool.dir(db)
+		inv = st['inv']
+		want = _seq_reference(pool, st) if not inv.get('fail') else None
+		if want is not None and want[0] != 'ok':
+			raise _SeqProblem(f'a well-formed command fails when run for the first time against data base {db} at this point of the campaign (it '
+			                  f'succeeds in a fresh process): {want}')
+		with _Names(dd):
+			r = _in_thread(lambda: _run_invocation(inv, 700 + idx, True)) if st.get('thread') else _run_invocation(inv, 700 + idx, True)
+		out['status'] = r['status'] + (': ' + r['detail'][:160] if r['status'] != 'ok' else '')
+		if r['status'] == 'problem':
+			raise _SeqProblem(f'{inv["cmd"]} on data base {db}: {r["detail"]}')
+		if want is not None:
+			got = ('ok', _cli_digest(inv, 700 + idx)) if r['status'] == 'ok' else ('raised', r['status'])
+			out['digest'] = got[1]
+			if got != want:
+				raise _SeqProblem(f'same command, other result: run first against data base {db} it gives {want}, here it gives {got} ({out["status"]})')
+		return out
+	if op == 'contrast':
+		pool.dbs_used.add('W')
+		out['status'] = _seq_contrast(pool, st)
+		return out
+	if op == 'badopen':
+		from gambit.sigs.base import load_signatures
+		p = pool.sq['badfile'][st.get('f', 'trunc')]
+		try:
+			h = load_signatures(p)
+			out['status'] = 'ok (the malformed file was opened)'
+			h.close()
+		except Exception as e:
+			out['status'] = 'raised ' + type(e).__name__
+		return out
+	if op == 'badload':
+		from gambit.db import ReferenceDatabase
+		try:
+			r = ReferenceDatabase.load_from_dir(pool.sq['baddir'][st.get('d', 'truncgdb')])
+			out['status'] = 'ok (the malformed data base was loaded)'
+			_close_rdb(r)
+		except Exception as e:
+			out['status'] = 'raised ' + type(e).__name__
+		return out
+	raise ValueError(op)
+
+
+def _tie_session(ctx, key, ent):
+	"""a long-lived session, all its steps taken together, against the session machine"""
+	db, how, af, slot = key
+	ops, obs = ent['ops'], ent['obs']
+	if not ctx.model_ok or ent['tainted'] or not ops or any(o[0] >= 10 for o in ops):
+		return
+	fl = _model_flags(ctx, how)
+	m = ctx.model([(1801, [fl[0], fl[1], af, [[k, 0] for k in TRACKED], ops])])[0]
+	if m == [2]:
+		ctx.broke('correspondence sequence (session)', f'model rejected the operations {ops}')
+		return
+	mo = _model_session_obs(m)
+	if mo != obs:
+		i = next((i for i, (a, b) in enumerate(zip(mo, obs)) if a != b), min(len(mo), len(obs)))
+		ctx.broke('correspondence sequence (long-lived session of a shared maker vs session machine)',
+		          f'session {key}, operations {ops}: first difference at operation {i}: model {mo[i] if i < len(mo) else None}, '
+		          f'implementation {obs[i] if i < len(obs) else None}')
+
+
+def _tie_handle(ctx, key, ent):
+	ops, obs = ent['ops'], ent['obs']
+	if not ctx.model_ok or not ops or key[0] == 'W':
+		return
+	m = ctx.model([(1802, [0, [], -1, _model_sops(ops)])])[0]
+	if m == [2]:
+		ctx.broke('correspondence sequence (store)', f'model rejected the operations {ops}')
+		return
+	mo = [[r if r[0] != 1 else [1, list(r[1])], ch, h] for r, ch, h in m]
+	obs = [ob for o, ob in zip(ops, obs) if o[0] != 7]
+	if mo != obs:
+		i = next((i for i, (a, b) in enumerate(zip(mo, obs)) if a != b), min(len(mo), len(obs)))
+		ctx.broke('correspondence sequence (long-lived signature handle vs store machine)',
+		          f'handle {key}, operations {ops}: first difference at operation {i}: model {mo[i] if i < len(mo) else None}, '
+		          f'implementation {obs[i] if i < len(obs) else None}')
+
+
+def _step_text(st):
+	t = {k: v for k, v in st.items() if k != 'op'}
+	return f'{st["op"]} {json.dumps(t, sort_keys=True)}'
+
+
+def _seq_run_script(ctx, steps):
+	"""one script on a pool of its own; -> (violation text or None, statuses, nontrivial)"""
+	env = _env()
+	sq = _seq_env()
+	pool = _Pool()
+	bad = None
+	statuses = []
+	failed = completed = repeated = 0
+	seen_calls = set()
+	nontrivial = False
+	try:
+		for idx, st in enumerate(steps):
+			marks = _seq_marks()
+			name = f'step {idx} ({_step_text(st)})'
+			try:
+				allow = ()
+				if st['op'] == 'contrast':
+					w = pool.dir('W')
+					allow = (os.path.realpath(w['gdb']), os.path.realpath(w['gs']))
+				elif st['op'] in ('query', 'dist', 'cli'):
+					pool.dir(st['db'])
+					if not (st['op'] == 'cli' and st['inv'].get('fail')):
+						_seq_reference(pool, st)
+					marks = _seq_marks()      # the reference run on fresh objects is not a step of the sequence
+				r = _seq_step(pool, st, idx)
+				statuses.append(r)
+				if r['status'] == 'ok':
+					completed += 1
+				else:
+					failed += 1
+				if st['op'] in ('query', 'dist', 'cli', 'sess', 'store'):
+					repeated += json.dumps(st, sort_keys=True) in seen_calls
+					seen_calls.add(json.dumps(st, sort_keys=True))
+				_seq_judge_recorders(pool, marks, allow)
+				_seq_judge_files(pool)
+				_seq_check_objects(pool)
+			except _SeqProblem as e:
+				bad = f'{name}: {e}'
+				break
+		ctx.count('sequence:steps', len(statuses))
+		ctx.count('sequence:steps-that-failed', failed)
+		shared_objects = sum(1 for n in pool.uses.values() if n >= 2)
+		ctx.count('sequence:objects-used-by-two-or-more-steps', shared_objects)
+		dbs = {d for d in pool.dbs_used if d in ('A', 'B', 'W')}
+		nontrivial = shared_objects >= 1 and completed >= 1 and (len(dbs) >= 2 or failed >= 1 or repeated >= 1)
+		if bad is None:
+			for key, ent in pool.sessions.items():
+				_tie_session(ctx, key, ent)
+			for key, ent in pool.handles.items():
+				_tie_handle(ctx, key, ent)
+	finally:
+		pool.close()
+	if bad is None:
+		# after every long-lived object was closed
+		for name, dd in (('A', dict(d=env['db'], base=env['base'], gs=env['gs'])), ('B', sq['B'])):
+			df = _diff(dd['base'], _snap(dd['d']))
+			if df:
+				bad = f'after closing every object of the pool the directory of data base {name} differs: ' + _with_damage(df, dd['gs'])
+				break
+	if bad:
+		_restore()
+		_restore_B()
+		env['rec']['fail_at'] = None
+	return bad, statuses, nontrivial
+
+
+def _seq_child(path):
+	"""entry point of the FRESH process that re-runs one sequence case (see _self_contained):
+	python -c 'import harness.c18 as m; m._seq_child(PATH)'"""
+	from vf.main import Ctx
+	data = json.load(open(path))
+	ctx = Ctx(PROP, 'quick', 0, os.environ.get('VERIF_REPO', '/repo'))
+	ctx.model_ok = False
+	ctx.replaying = True
+	setup(ctx)
+	k_sequence(ctx, [data['case']])
+	print('C18-SEQ-CHILD ' + json.dumps(dict(violations=[v['what'] for v in ctx.violations])))
+
+
+def _fresh_process_fails(case):
+	"""-> text of the violation the case shows when it is the ONLY thing a fresh process runs, '' if it shows none, None if
+	the process could not be run"""
+	import subprocess
+	import sys
+	env = _env()
+	env['nchild'] = env.get('nchild', 0) + 1
+	path = os.path.join(env['root'], f'child{env["nchild"]}.json')
+	with open(path, 'w') as f:
+		json.dump(dict(case=case), f)
+	try:
+		r = subprocess.run([sys.executable, '-c', 'import harness.c18 as m; m._seq_child(%r)' % path], capture_output=True, text=True, timeout=600)
+	except Exception:
+		return None
+	for line in r.stdout.splitlines():
+		if line.startswith('C18-SEQ-CHILD '):
+			v = json.loads(line[len('C18-SEQ-CHILD '):])['violations']
+			return v[0] if v else ''
+	return None
+
+
+def _self_contained(c, bad, history):
+	"""The objects the sequence stream looks for live in the PROCESS (module globals, class attributes, registries): a case
+	that fails in the campaign may fail because of what an EARLIER case left behind.  A replay must fail in a fresh
+	process: the case is re-run alone in one; if it does not fail there, the scripts of the sequence cases that ran
+	before it are put in front (key `prior`; the last 1, 2, 4, ... of them) until it does.  -> (case to report, text)"""
+	r = _fresh_process_fails(c)
+	if r:
+		return c, bad
+	if r is None:
+		return c, bad + ' [could not be re-run in a fresh process]'
+	k = 1
+	while history:
+		prior = history[-k:]
+		cand = dict(steps=c['steps'], prior=[h for h in prior])
+		r = _fresh_process_fails(cand)
+		if r:
+			return cand, f'{bad} [not when this script is the first thing a process runs: only after the {len(prior)} earlier script(s) under `prior`, which left state behind in the process]'
+		if r is None or k >= len(history):
+			break
+		k *= 2
+	# state left by the other streams (which use data base A through every entry point): a script that does the same
+	for db in ('A', 'B'):
+		cand = dict(steps=c['steps'], prior=[_seq_prelude(db)])
+		if _fresh_process_fails(cand):
+			return cand, f'{bad} [not when this script is the first thing a process runs: only after data base {db} was used in the process, script under `prior`]'
+	return c, bad + (' [seen only after earlier cases of this campaign -- state left in the process by other streams; re-run the campaign with the '
+	                 'same VERIF_SEED to see it again]')
+
+
+def _seq_prelude(db):
+	"""one use of a data base through every entry point"""
+	return [dict(op='cli', db=db, inv=dict(cmd='querysig')), dict(op='cli', db=db, inv=dict(cmd='info-db', flags=[])),
+	        dict(op='query', db=db, via='dir', q=['ref', [0]], p=0), dict(op='query', db=db, via='cli', q=['ref', [0]], p=0),
+	        dict(op='sess', db=db, how='default', af=1, slot=0, ops=[[3], [5]]), dict(op='sess', db=db, how='cli', af=1, slot=0, ops=[[3], [5]]),
+	        dict(op='store', f=db, slot=0, ops=[[0, -1], [1, 0], [5]])]
+
+
+def k_sequence(ctx, cases):
+	"""a short script of calls over a small pool of long-lived objects shared between the steps: reference data base
+	objects, session makers and their sessions, signature handles, CLI contexts, QueryParams objects, query arrays --
+	against two different data bases (A: the shared copy; B: another data base, other size and order), a private data
+	base W on which a writing tool works in between, malformed files.  After EVERY step: the C18 predicate on every
+	directory of the pool, `caller objects unmodified`, `same call, same result`."""
+	env = _env()
+	sq = _seq_env()
+	if not ctx.replaying:
+		ctx.extra['sequence_data_base_B'] = dict(sq['variant'], note='made by the harness from the shipped data base: signatures in reversed order, '
+		                                         'every 5th dropped, their genomes and every 7th other genome removed')
+	t0 = time.time()
+	if not ctx.replaying:
+		env['campaign'] = True      # (corpus cases included: they run in the campaign process after the corpus cases of the other kinds)
+	for c in cases:
+		if ctx.replaying and env.get('campaign'):
+			# the runner's shrinker re-runs candidates inside the campaign process, whose module-level state is what the earlier
+			# cases left: nothing can be concluded there about a shorter script (sequence cases are short: reported as found)
+			continue
+		bad = None
+		for k, steps in enumerate(c.get('prior', [])):
+			bad, statuses, _ = _seq_run_script(ctx, steps)
+			if bad:
+				bad = f'script {k} of `prior`: {bad}'
+				break
+		if bad is None:
+			bad, statuses, nontrivial = _seq_run_script(ctx, c.get('steps', []))
+			ctx.case(c, nontrivial=nontrivial)
+		else:
+			ctx.case(c, nontrivial=False)
+		if bad:
+			report = c
+			if not ctx.replaying and env.get('campaign') and env.get('seq_confirmed', 0) < 3:
+				env['seq_confirmed'] = env.get('seq_confirmed', 0) + 1
+				report, bad = _self_contained(c, bad, env.get('seq_history', []))
+			ctx.violation('sequence', report, bad, impl=[s.get('status') for s in statuses])
+		if not ctx.replaying:
+			env.setdefault('seq_history', []).append(c.get('steps', []))
+	if not ctx.replaying:
+		ctx.extra['sequence_wall_s'] = round(ctx.extra.get('sequence_wall_s', 0) + time.time() - t0, 2)
+
+
+KINDS = {'session': k_session, 'store': k_store, 'history': k_history, 'walpending': k_walpending, 'sequence': k_sequence}
+CORRESPONDENCES = ['session', 'store', 'history', 'walpending', 'sequence']
 
 
 # ------------------------------------------------------------------------------------------------
@@ -1769,9 +2985,183 @@ def _rand_state_inv(rng):
 		return inv
 
 
+SEQ_QIDX = [[3, 40, 7], [100], [212, 5, 5], [17, 60, 130, 199]]
+
+
+def _seq_ops(rng, n, step):
+	"""session operations of one step of a sequence; the keys of added genomes are unique within the case"""
+	ops = _rand_ops(rng, n)
+	for j, o in enumerate(ops):
+		if o[0] == 0:
+			o[1] = ADD_BASE + 1000 * (step + 1) + j
+	return ops
+
+
+def _rand_cli_inv(rng):
+	# (commands that parse genome files start a pool of worker processes, 0.2 s each: the history streams run many of them)
+	cmd = rng.choice(['querysig', 'querysig', 'info-db', 'info-db', 'info-file', 'load', 'load', 'query', 'dist', 'create'])
+	inv = dict(cmd=cmd)
+	if cmd in ('query', 'dist', 'create', 'load'):
+		inv['n'] = 1
+		inv['q'] = [rng.randrange(2)]
+	if cmd == 'query':
+		inv['fmt'] = rng.choice(['csv', 'csv', 'json', 'archive'])
+	if cmd == 'load':
+		inv['libquery'] = rng.random() < 0.5
+		inv['mut'] = [[rng.randrange(NSEL), rng.randrange(NMUT), rng.randrange(0, 150), rng.randrange(0, 8)]]
+		inv['close'] = rng.random() < 0.5
+	if cmd in ('info-db', 'info-file'):
+		inv['flags'] = rng.choice([[], ['-j'], ['-i']])
+	p = rng.random()
+	if cmd in ('query', 'querysig', 'load') and p < 0.2:
+		inv['fail'] = dict(kind='sql', at=rng.randint(1, 9))
+	elif cmd in ('query', 'dist', 'create') and p < 0.3:
+		inv['fail'] = dict(kind=rng.choice(['badarg', 'badfile', 'badout']))
+	elif cmd in ('querysig', 'info-db') and p < 0.3:
+		inv['fail'] = dict(kind='nodb')
+	elif cmd == 'info-file' and p < 0.2:
+		inv['fail'] = dict(kind='badarg')
+	return inv
+
+
+def _rand_step(rng, step, with_w):
+	r = rng.random()
+	db = rng.choice(['A', 'A', 'B'])
+	via = rng.choice(['dir', 'dir', 'files', 'cli', 'cli2', 'fresh'])
+	if r < 0.28:
+		st = dict(op='query', db=db, via=via, q=[rng.choice(['ref', 'ref', 'qs', 'sa']), rng.choice(SEQ_QIDX)], p=rng.randrange(len(SEQ_PARAMS)))
+		if rng.random() < 0.3:
+			st['inputs'] = 1
+		if rng.random() < 0.3:
+			st['exp'] = rng.choice(['csv', 'json', 'archive'])
+		if via == 'fresh' and rng.random() < 0.5:
+			st['thread'] = 1
+		return st
+	if r < 0.38:
+		st = dict(op='dist', db=db, via=via, q=[rng.choice(['ref', 'qs']), rng.choice(SEQ_QIDX)], chunk=rng.choice([None, 7, 50, 1000]))
+		if via == 'fresh' and rng.random() < 0.5:
+			st['thread'] = 1
+		return st
+	if r < 0.50:
+		how = rng.choice(['iter', 'dtype', 'object', 'ndim', 'empty', 'inputs', 'sql'])
+		return dict(op='qfail', db=db, via=rng.choice(['dir', 'dir', 'files', 'cli', 'cli2']), how=how, at=rng.randint(1, 6) if how == 'sql' else rng.randrange(4),
+		            p=rng.randrange(len(SEQ_PARAMS)))
+	if r < 0.66:
+		st = dict(op='sess', db=rng.choice(['A', 'A', 'B', 'W'] if with_w else ['A', 'A', 'B']), how=rng.choice(['default', 'default', 'explicit', 'cli']),
+		          af=rng.choice([0, 1, 1]), slot=rng.randrange(2), ops=_seq_ops(rng, rng.randint(1, 5), step))
+		if rng.random() < 0.15:
+			st['fail'] = rng.randint(1, 4)
+		return st
+	if r < 0.78:
+		ops = _rand_sops(rng, rng.randint(1, 4), [-1, 0], inplace=0.4)
+		if rng.random() < 0.7:
+			ops = [[0, rng.choice([-1, 0])]] + ops
+		return dict(op='store', f=rng.choice(['A', 'A', 'B', 'Q', 'W'] if with_w else ['A', 'A', 'B', 'Q']), slot=rng.randrange(2), ops=ops)
+	if r < 0.89:
+		st = dict(op='cli', db=db, inv=_rand_cli_inv(rng))
+		if rng.random() < 0.2:
+			st['thread'] = 1
+		return st
+	if r < 0.92:
+		return rng.choice([dict(op='badopen', f=rng.choice(SEQ_BAD_FILES)), dict(op='badload', d=rng.choice(SEQ_BAD_DIRS))])
+	if r < 0.95:
+		return dict(op='edit', db=db, via=rng.choice(['dir', 'files', 'cli']), i=rng.randrange(150), v=rng.randrange(1, 50), flush=rng.choice([0, 1]),
+		            commit=rng.choice([0, 1]))
+	if r < 0.975:
+		return dict(op='close', db=db, via=rng.choice(['dir', 'files', 'cli', 'cli2']))
+	return dict(op='contrast', what=rng.choice(['plain', 'cls', 'rplus']), edit=rng.choice([0, 1, 2]), hold=rng.choice([0, 0, 1]))
+
+
+def _other_db(st):
+	st = json.loads(json.dumps(st))
+	if st.get('db') in ('A', 'B'):
+		st['db'] = 'B' if st['db'] == 'A' else 'A'
+	elif st.get('f') in ('A', 'B'):
+		st['f'] = 'B' if st['f'] == 'A' else 'A'
+	return st
+
+
+def _rand_seq(rng):
+	"""2-6 steps; a step is new, or an earlier step again (same call on the same objects), or an earlier step against the
+	OTHER data base (same params object / arrays / slot numbers, other data base)"""
+	steps = []
+	with_w = rng.random() < 0.25
+	if with_w:
+		steps.append(dict(op='contrast', what=rng.choice(['plain', 'cls', 'rplus']), edit=rng.choice([0, 1]), hold=rng.choice([0, 0, 1])))
+	for i in range(rng.randint(2, 6)):
+		r = rng.random()
+		again = [s for s in steps if s['op'] in ('query', 'dist', 'cli', 'store', 'qfail')]
+		if again and r < 0.22:
+			steps.append(json.loads(json.dumps(rng.choice(again))))
+		elif again and r < 0.42:
+			steps.append(_other_db(rng.choice(again)))
+		else:
+			steps.append(_rand_step(rng, i, with_w))
+	return dict(steps=steps)
+
+
+def _fixed_seqs():
+	"""templates, each for both orders of the two data bases"""
+	out = []
+	q1, q2 = ['ref', [3, 40, 7]], ['qs', [0, 5]]
+	for X, Y in (('A', 'B'), ('B', 'A')):
+		# one params object and one list of query arrays against two data bases; the same call again
+		out.append([dict(op='query', db=X, via='dir', q=q1, p=1), dict(op='query', db=Y, via='dir', q=q1, p=1), dict(op='query', db=X, via='dir', q=q1, p=1),
+		            dict(op='dist', db=Y, via='dir', q=q1, chunk=7), dict(op='dist', db=X, via='dir', q=q1, chunk=7)])
+		out.append([dict(op='query', db=X, via='files', q=q2, p=2, inputs=1, exp='json'), dict(op='query', db=Y, via='cli', q=q2, p=2, inputs=1, exp='archive'),
+		            dict(op='query', db=X, via='files', q=q2, p=0, exp='csv'), dict(op='query', db=Y, via='cli', q=['sa', [17, 60, 130, 199]], p=3)])
+		# sessions of shared makers: two sessions of one maker, makers of two data bases, edits left pending across steps
+		for how in ('default', 'explicit', 'cli'):
+			out.append([dict(op='sess', db=X, how=how, af=1, slot=0, ops=[[0, ADD_BASE + 1001, 1], [1, 1, 2], [3]]),
+			            dict(op='sess', db=Y, how=how, af=1, slot=0, ops=[[0, ADD_BASE + 2001, 3], [5], [4], [8]]),
+			            dict(op='sess', db=X, how=how, af=1, slot=0, ops=[[3], [5], [8], [2, 2]]),
+			            dict(op='sess', db=X, how=how, af=1, slot=1, ops=[[3], [5], [0, ADD_BASE + 4001, 4], [4]]),
+			            dict(op='query', db=X, via='cli' if how == 'cli' else 'dir', q=q1, p=0),
+			            dict(op='sess', db=X, how=how, af=1, slot=0, ops=[[4], [3], [6], [3], [7], [5]])])
+		# signature handles: two handles on one file, handles on two files, arrays taken earlier modified later
+		out.append([dict(op='store', f=X, slot=0, ops=[[0, -1], [1, 2], [6, 1, 3, 0, 10, 2]]), dict(op='store', f=Y, slot=0, ops=[[0, 0], [2, 1, 7], [2, 2, 7]]),
+		            dict(op='store', f=X, slot=1, ops=[[0, 0], [3, 1], [6, 2, 0, 4, 10, 0], [5]]), dict(op='store', f=X, slot=0, ops=[[7, 5], [2, 0, 9], [3, 2], [4]]),
+		            dict(op='store', f='Q', slot=0, ops=[[0, -1], [2, 0, 1], [6, 0, 13, 1, 0, 3]]), dict(op='store', f=X, slot=0, ops=[[5], [7, 1], [0, -1], [2, 3, 3]])])
+		# a call that fails part-way, then the good call again on the same thread and the same objects
+		for how in (('iter', 'object', 'empty', 'sql') if X == 'A' else ('dtype', 'ndim', 'inputs', 'sql')):
+			out.append([dict(op='query', db=X, via='dir', q=q1, p=1), dict(op='qfail', db=X, via='dir', how=how, at=2, p=1),
+			            dict(op='query', db=X, via='dir', q=q1, p=1), dict(op='qfail', db=Y, via='files', how=how, at=1, p=1),
+			            dict(op='query', db=Y, via='files', q=q1, p=1), dict(op='dist', db=X, via='dir', q=q1, chunk=5)])
+		# a writing tool works on the private data base W in between (same paths)
+		out.append([dict(op='contrast', what='plain', edit=1), dict(op='sess', db='W', how='default', af=1, slot=0, ops=[[0, ADD_BASE + 1001, 1], [5], [4], [3], [8]]),
+		            dict(op='contrast', what='cls', edit=0, hold=1), dict(op='sess', db='W', how='default', af=1, slot=1, ops=[[1, 1, 5], [8], [5], [3]]),
+		            dict(op='sess', db=X, how='default', af=1, slot=0, ops=[[1, 2, 5], [4], [5]]), dict(op='query', db='W', via='dir', q=q1, p=0)])
+		out.append([dict(op='contrast', what='rplus', edit=1), dict(op='store', f='W', slot=0, ops=[[0, -1], [2, 0, 5], [3, 1], [5]]),
+		            dict(op='contrast', what='rplus', edit=0, hold=1), dict(op='store', f='W', slot=1, ops=[[0, -1], [1, 0], [2, 1, 5]]),
+		            dict(op='store', f=X, slot=0, ops=[[0, -1], [2, 0, 5]]), dict(op='cli', db='W', inv=dict(cmd='info-db', flags=['-j']))])
+		# commands in process, the same command again, a failing one in between
+		cq = dict(cmd='query', n=1, q=[0], fmt='csv')
+		out.append([dict(op='cli', db=X, inv=cq), dict(op='cli', db=Y, inv=cq), dict(op='cli', db=X, inv=dict(cq, fail=dict(kind='sql', at=3))),
+		            dict(op='cli', db=X, inv=cq), dict(op='cli', db=Y, inv=dict(cmd='dist', n=1, q=[1])), dict(op='cli', db=X, inv=dict(cmd='dist', n=1, q=[1]))])
+		# malformed files in between
+		out.append([dict(op='badopen', f='trunc'), dict(op='store', f=X, slot=0, ops=[[0, -1], [2, 0, 5], [1, 1]]), dict(op='badopen', f='nothdf'),
+		            dict(op='cli', db=X, inv=dict(cmd='info-file', flags=[])), dict(op='badload', d='truncgs'), dict(op='query', db=X, via='dir', q=q2, p=0)])
+		out.append([dict(op='badload', d='truncgdb'), dict(op='query', db=X, via='files', q=q1, p=0), dict(op='badload', d='twogdb'), dict(op='badopen', f='missing'),
+		            dict(op='sess', db=Y, how='default', af=1, slot=0, ops=[[1, 1, 3], [5], [4], [3]]), dict(op='query', db=X, via='files', q=q1, p=0)])
+		# one CLI context: data base objects and sessions from it, closed and obtained again
+		out.append([dict(op='query', db=X, via='cli', q=q1, p=0), dict(op='sess', db=X, how='cli', af=1, slot=0, ops=[[0, ADD_BASE + 1001, 1], [3], [5]]),
+		            dict(op='query', db=X, via='cli2', q=q1, p=0), dict(op='query', db=X, via='cli', q=q1, p=0), dict(op='close', db=X, via='cli'),
+		            dict(op='query', db=X, via='cli', q=q1, p=0), dict(op='query', db=Y, via='cli2', q=q1, p=0)])
+		# the client edits ORM objects of the data base object in memory; queries (autoflush), flush and commit in between
+		out.append([dict(op='query', db=X, via='dir', q=q1, p=0), dict(op='edit', db=X, via='dir', i=3, v=7, flush=1, commit=1),
+		            dict(op='query', db=X, via='dir', q=q1, p=0), dict(op='edit', db=Y, via='cli', i=0, v=8, flush=0, commit=1),
+		            dict(op='cli', db=X, inv=dict(cmd='querysig')), dict(op='query', db=Y, via='cli', q=q1, p=0)])
+		# a second thread that loads the data base itself, while the first keeps its objects
+		out.append([dict(op='query', db=X, via='dir', q=q1, p=1), dict(op='query', db=Y, via='fresh', q=q1, p=1, thread=1), dict(op='query', db=X, via='dir', q=q1, p=1),
+		            dict(op='cli', db=Y, inv=dict(cmd='querysig'), thread=1), dict(op='dist', db=X, via='fresh', q=q2, chunk=50, thread=1),
+		            dict(op='query', db=X, via='dir', q=q1, p=1)])
+	return [dict(steps=s) for s in out]
+
+
 def generate(ctx):
 	rng = ctx.rng
 	ctx.rule(RULE)
+	_env()['campaign'] = True
 	# ---- genome file with pending WAL frames (known finding C18-wal-pending-frames on the unchanged repository) ----
 	yield 'walpending', dict(name='wal-pending-frames', cmd='query')
 	yield 'walpending', dict(name='wal-pending-frames-info', cmd='info')
@@ -1945,3 +3335,10 @@ def generate(ctx):
 		invs.append(dict(cmd='info-db', flags=['-j']))
 		yield 'history', dict(invs=invs)
 		ctx.count('stream:history-malformed')
+	# ---- sequences of calls over a pool of shared long-lived objects (docstring: state and aliasing) ---------------
+	for c in _fixed_seqs():
+		yield 'sequence', c
+		ctx.count('stream:sequence-fixed')
+	for _ in range(ctx.pick(44, 600)):
+		yield 'sequence', _rand_seq(rng)
+		ctx.count('stream:sequence-random')
